@@ -79,6 +79,22 @@ class SourceModel:
     def has_func(self, qualname):
         return qualname in self.functions
 
+    # -- construct matching with local names as metavariables (pat.py) -----------------------
+    def has(self, qualname, src, root=None):
+        """Does function `qualname` contain the construct `src` (written with today's names; locals match as metavariables)?"""
+        from .pat import ahas
+        fn = self.func(qualname)
+        try:
+            return ahas(self, fn, src, root)
+        except SyntaxError:
+            # not a complete statement / expression (e.g. an `if` header): fall back to normalised text containment
+            self.text_fallbacks = getattr(self, "text_fallbacks", 0) + 1
+            return src in ast.unparse(root if root is not None else fn)
+
+    def find(self, qualname, src, root=None):
+        from .pat import afind
+        return afind(self, self.func(qualname), src, root)
+
     def cls(self, name):
         c = self.classes.get(name)
         if c is None:
